@@ -19,6 +19,10 @@
 (* carry an explicit scope annotation (never modified by inference), plus  *)
 (* a set of unused root declarations.  Recursion (cycles, self calls),     *)
 (* unreachable and uncalled subroutines are all in the enumeration.        *)
+(* Duplicated declarations (one name declared twice, also across kinds:    *)
+(* plain / functional subroutine, acl, table, backend, director) are added *)
+(* by the concretiser to the permuted declaration blocks; the model's      *)
+(* statement about them is only the relational one: order independence.    *)
 (***************************************************************************)
 EXTENDS Naturals, Sequences, FiniteSets, TLC, Json, Randomization
 
